@@ -283,6 +283,114 @@ theorem allowlist_admits_iff (names : List Str) (name k v : Str) :
     (Filter.allowlist names).shouldInclude name k v = true ↔ k ∈ names := by
   simp [Filter.shouldInclude]
 
+/-! ### names are bytes: the allow-list for arbitrary UTF-8 names
+
+The code compares Rust strings, i.e. UTF-8 byte sequences (`HashSet<String>::contains(&str)`); the model compares
+code-point lists.  `utf8_inj` makes the two the same question, and the statements below say what the property's
+"allow-list = the listed names" means for names of any script: byte-for-byte identity with a listed name and
+nothing else — in particular no length (in bytes or in characters) of any name on the list plays a role. -/
+
+/-- two names have the same UTF-8 bytes iff they are the same code points -/
+theorem utf8_inj (a b : Str) : utf8 a = utf8 b ↔ a = b := by
+  constructor
+  · intro h
+    exact String.ofList_injective (String.toByteArray_inj.mp h)
+  · intro h; rw [h]
+
+/-- **`Allowlist` admits exactly the listed names, byte for byte**: a label is admitted iff the bytes of its name
+    are the bytes of some listed name — whatever the metric, the value, the other names on the list, and the
+    lengths of any of them -/
+theorem allowlist_admits_iff_bytes (names : List Str) (name k v : Str) :
+    (Filter.allowlist names).shouldInclude name k v = true ↔ ∃ n ∈ names, utf8 n = utf8 k := by
+  simp [Filter.shouldInclude, utf8_inj]
+
+/-- the decision for `k` depends on nothing but whether `k` itself is listed: adding or removing OTHER names
+    (longer, shorter, of another script) never changes it -/
+theorem allowlist_indep_of_other_names (names names' : List Str) (name name' k v v' : Str)
+    (h : k ∈ names ↔ k ∈ names') :
+    (Filter.allowlist names).shouldInclude name k v = (Filter.allowlist names').shouldInclude name' k v' := by
+  have h1 := allowlist_admits_iff names name k v
+  have h2 := allowlist_admits_iff names' name' k v'
+  cases e1 : (Filter.allowlist names).shouldInclude name k v <;>
+    cases e2 : (Filter.allowlist names').shouldInclude name' k v' <;> simp_all
+
+/-- a character takes at least one byte: `chars().count() ≤ len()` for every name -/
+theorem charLen_le_byteLen (s : Str) : charLen s ≤ byteLen s := by
+  induction s with
+  | nil => simp [charLen]
+  | cons c r ih =>
+    simp only [charLen, byteLen, utf8, String.toByteArray_ofList] at ih ⊢
+    rw [List.utf8Encode_cons, ByteArray.size_append, List.utf8Encode_singleton]
+    have : 1 ≤ (String.utf8EncodeChar c).toByteArray.size := by
+      simp
+      exact Char.utf8Size_pos c
+    simp only [List.length_cons]
+    omega
+
+/-- … and the two lengths do differ, so a bound taken in one unit must not be compared with a length taken in
+    the other: there are allow-lists with a listed (hence admitted) name whose byte length exceeds the character
+    count of EVERY listed name.  Any shortcut of the form "reject when `key.len()` is above the largest
+    `chars().count()` of the list" therefore rejects a label the property requires. -/
+theorem char_count_bound_unsound :
+    ∃ (names : List Str) (k : Str), k ∈ names
+      ∧ (∀ name v, (Filter.allowlist names).shouldInclude name k v = true)
+      ∧ ∀ n ∈ names, charLen n < byteLen k := by
+  refine ⟨[['r', 'é', 'g', 'i', 'o', 'n'], ['e', 'n', 'v']], ['r', 'é', 'g', 'i', 'o', 'n'], by simp, ?_, by decide⟩
+  intro name v
+  simp [Filter.shouldInclude]
+
+/-- a bound in the SAME unit is harmless: every listed name lies between the smallest and the largest byte
+    length of the list (so the only sound length shortcut is one in bytes, and it changes no decision) -/
+theorem byte_length_bound_sound (names : List Str) (k : Str) (h : k ∈ names) :
+    (names.map byteLen).foldl min (byteLen k) ≤ byteLen k ∧ byteLen k ≤ (names.map byteLen).foldl max 0 := by
+  constructor
+  · generalize byteLen k = b
+    have : ∀ (l : List Nat) (a : Nat), a ≤ b → l.foldl min a ≤ b := by
+      intro l
+      induction l with
+      | nil => intro a ha; simpa using ha
+      | cons x r ih => intro a ha; exact ih (min a x) (by omega)
+    exact this _ b (Nat.le_refl b)
+  · have : ∀ (l : List Str) (a : Nat), (k ∈ l ∨ byteLen k ≤ a) → byteLen k ≤ (l.map byteLen).foldl max a := by
+      intro l
+      induction l with
+      | nil => intro a ha; simpa using ha
+      | cons x r ih =>
+        intro a ha
+        simp only [List.map_cons, List.foldl_cons]
+        apply ih
+        rcases ha with ha | ha
+        · rcases List.mem_cons.mp ha with e | e
+          · right; subst e; omega
+          · left; exact e
+        · right; omega
+    exact this names 0 (Or.inl h)
+
+/-- **Emission under an allow-list**, for names of any script: after any program, the key handed to the inner
+    recorder maps `k` to the metric's own value if it has one; otherwise to the value visible for `k` from the
+    current span iff `k` is byte-for-byte one of the listed names; otherwise to nothing. -/
+theorem emit_allowlist_lookup (ops : List Op) (names : List Str) (t : Nat) (name : Str) (labels : List (Str × Str))
+    (hl : (FMap.keys labels).Nodup) (k : Str) :
+    let sc := runG init [] ops
+    FMap.get? (emit sc.1 (.allowlist names) t name labels) k
+      = (FMap.get? labels k).or (if ∃ n ∈ names, utf8 n = utf8 k then visibleAt sc.1 sc.2 t k else none) := by
+  intro sc
+  have h := emit_lookup ops (.allowlist names) t name labels hl k
+  simp only [] at h
+  rw [h]
+  congr 1
+  cases hv : visibleAt (runG init [] ops).1 (runG init [] ops).2 t k with
+  | none => simp [admitOpt]
+  | some w =>
+    have hb := allowlist_admits_iff_bytes names name k w
+    by_cases hm : ∃ n ∈ names, utf8 n = utf8 k
+    · simp [admitOpt, hm, hb.mpr hm]
+    · have : (Filter.allowlist names).shouldInclude name k w = false := by
+        cases e : (Filter.allowlist names).shouldInclude name k w
+        · rfl
+        · exact absurd (hb.mp e) hm
+      simp [admitOpt, hm, this]
+
 /-! ## the object pool: maps of closed spans are reused, and it never shows
 
 `Labels::default()` does not build a map, it pulls one out of a process-wide pool into which the maps of closed
@@ -359,6 +467,209 @@ theorem emit_unchanged_no_layer (s : State) (f : Filter) (t : Nat) (name : Str) 
     emitCfg false s f t name labels = labels ∧ emitCfg true s f t name labels = emit s f t name labels :=
   ⟨rfl, rfl⟩
 
+/-! ## registry slots: the id of a closed span is reused, and it never shows
+
+`Model/Tracing` § registry slots stores every `Labels` in the registry slot of its span and reads it back through
+the slot (`rLookup`), with closed spans freeing their slot for later spans. -/
+
+/-- what ties the two readings together: the slot of every live span holds that span's map, and no two live spans
+    share a slot -/
+def RInv (r : RState) : Prop :=
+  (∀ id, liveR r id = true → r.ext (r.slotOf id) = r.base.spans[id]?) ∧
+  (∀ i j, liveR r i = true → liveR r j = true → r.slotOf i = r.slotOf j → i = j)
+
+theorem liveR_iff (r : RState) (id : Nat) : liveR r id = true ↔ id < r.base.spans.length ∧ id ∉ r.closed := by
+  simp [liveR]
+
+theorem slotFree_spec {r : RState} {slot : Nat} (h : slotFree r slot = true) (id : Nat) (hl : liveR r id = true) :
+    r.slotOf id ≠ slot := by
+  simp only [slotFree, List.all_eq_true, List.mem_range] at h
+  rw [liveR_iff] at hl
+  have := h id hl.1
+  intro e
+  simp [e, hl.2] at this
+
+theorem rLookup_eq {r : RState} (hi : RInv r) (p : Option Nat)
+    (hp : match p with | none => True | some pid => liveR r pid = true) :
+    rLookup r p = parentLabels r.base p := by
+  cases p with
+  | none => rfl
+  | some pid => simp only [rLookup, parentLabels]; exact hi.1 pid hp
+
+/-- one legal operation keeps the invariant, and the creation-numbered reading moves as the slot-free model says
+    (closing does nothing there) -/
+theorem rinv_step {r : RState} (hi : RInv r) (op : ROp) (hl : legal r op = true) :
+    RInv (rstep r op) ∧ (rstep r op).base = baseStepOpt r.base op.toBase := by
+  cases op with
+  | new t par fields slot =>
+    simp only [legal, Bool.and_eq_true] at hl
+    have hfree := hl.1
+    have hpar : rLookup r (resolveParent r.base t par) = parentLabels r.base (resolveParent r.base t par) := by
+      apply rLookup_eq hi
+      cases h : resolveParent r.base t par with
+      | none => trivial
+      | some pid => have := hl.2; rw [h] at this; exact this
+    have hold : ∀ id, liveR (rstep r (.new t par fields slot)) id = true → id ≠ r.base.spans.length → liveR r id = true := by
+      intro id h e
+      rw [liveR_iff] at h ⊢
+      simp only [rstep, List.length_append, List.length_cons, List.length_nil] at h
+      exact ⟨by omega, h.2⟩
+    refine ⟨⟨?_, ?_⟩, ?_⟩
+    · intro id hlive
+      by_cases e : id = r.base.spans.length
+      · subst e; simp [rstep]
+      · have hlv := hold id hlive e
+        have hlt := ((liveR_iff r id).mp hlv).1
+        have hne := slotFree_spec hfree id hlv
+        simp only [rstep, if_neg e, if_neg hne]
+        rw [hi.1 id hlv, List.getElem?_append_left hlt]
+    · intro i j hli hlj hs
+      simp only [rstep] at hs
+      by_cases ei : i = r.base.spans.length <;> by_cases ej : j = r.base.spans.length
+      · omega
+      · have hne := slotFree_spec hfree j (hold j hlj ej)
+        simp [ei, ej] at hs; exact absurd hs.symm hne
+      · have hne := slotFree_spec hfree i (hold i hli ei)
+        simp [ei, ej] at hs; exact absurd hs hne
+      · simp [ei, ej] at hs
+        exact hi.2 i j (hold i hli ei) (hold j hlj ej) hs
+    · simp only [rstep, ROp.toBase, baseStepOpt, step, onNewSpan, hpar]
+  | record t id fields =>
+    simp only [legal] at hl
+    have hold : ∀ j, liveR (rstep r (.record t id fields)) j = true → liveR r j = true := by
+      intro j h
+      rw [liveR_iff] at h ⊢
+      simpa [rstep, length_modifyAt] using h
+    refine ⟨⟨?_, ?_⟩, ?_⟩
+    · intro j hlive
+      have hlj := hold j hlive
+      simp only [rstep]
+      by_cases e : j = id
+      · subst e
+        simp only [if_true, getElem?_modifyAt]
+        rw [hi.1 j hlj]
+      · have hne : r.slotOf j ≠ r.slotOf id := fun h => e (hi.2 j id hlj hl h)
+        simp only [if_neg hne, getElem?_modifyAt, if_neg e]
+        exact hi.1 j hlj
+    · intro i j hli hlj hs
+      exact hi.2 i j (hold i hli) (hold j hlj) hs
+    · simp only [rstep, ROp.toBase, baseStepOpt, step, onRecord]; rfl
+  | enter t id =>
+    have hsp : (step r.base (.enter t id)).spans = r.base.spans := by
+      simp only [step]; split <;> simp [setStack]
+    have hold : ∀ j, liveR (rstep r (.enter t id)) j = true → liveR r j = true := by
+      intro j h
+      rw [liveR_iff] at h ⊢
+      simpa [rstep, hsp] using h
+    refine ⟨⟨?_, ?_⟩, rfl⟩
+    · intro j hlive
+      simp only [rstep, hsp]
+      exact hi.1 j (hold j hlive)
+    · intro i j hli hlj hs
+      exact hi.2 i j (hold i hli) (hold j hlj) hs
+  | exit t id =>
+    have hsp : (step r.base (.exit t id)).spans = r.base.spans := by
+      simp [step, setStack]
+    have hold : ∀ j, liveR (rstep r (.exit t id)) j = true → liveR r j = true := by
+      intro j h
+      rw [liveR_iff] at h ⊢
+      simpa [rstep, hsp] using h
+    refine ⟨⟨?_, ?_⟩, rfl⟩
+    · intro j hlive
+      simp only [rstep, hsp]
+      exact hi.1 j (hold j hlive)
+    · intro i j hli hlj hs
+      exact hi.2 i j (hold i hli) (hold j hlj) hs
+  | close id =>
+    simp only [rstep]
+    by_cases hc : liveR r id = true
+    · simp only [if_pos hc]
+      have hold : ∀ j, liveR { r with closed := id :: r.closed, ext := fun s => if s = r.slotOf id then none else r.ext s } j = true
+          → liveR r j = true ∧ j ≠ id := by
+        intro j h
+        rw [liveR_iff] at h ⊢
+        simp only [List.mem_cons, not_or] at h
+        exact ⟨⟨h.1, h.2.2⟩, h.2.1⟩
+      refine ⟨⟨?_, ?_⟩, rfl⟩
+      · intro j hlive
+        have ⟨hlj, hne⟩ := hold j hlive
+        have hsl : r.slotOf j ≠ r.slotOf id := fun h => hne (hi.2 j id hlj hc h)
+        simp only [if_neg hsl]
+        exact hi.1 j hlj
+      · intro i j hli hlj hs
+        exact hi.2 i j (hold i hli).1 (hold j hlj).1 hs
+    · simp only [hc]
+      exact ⟨hi, rfl⟩
+
+def rinit : RState := {}
+
+def rrun (r : RState) (ops : List ROp) : RState := ops.foldl rstep r
+
+/-- every operation of the program is legal at the moment it is made -/
+def legalRun (r : RState) : List ROp → Bool
+  | [] => true
+  | op :: ops => legal r op && legalRun (rstep r op) ops
+
+def baseOpsR (ops : List ROp) : List Op := ops.filterMap ROp.toBase
+
+theorem rinv_init : RInv rinit := by
+  constructor
+  · intro id h; simp [liveR, rinit] at h
+  · intro i j h; simp [liveR, rinit] at h
+
+/-- the same from any state satisfying the invariant -/
+theorem slots_agree_from (r : RState) (hi : RInv r) (ops : List ROp) (h : legalRun r ops = true) :
+    (rrun r ops).base = run r.base (baseOpsR ops) ∧ RInv (rrun r ops) := by
+  induction ops generalizing r with
+  | nil => exact ⟨rfl, hi⟩
+  | cons op ops ih =>
+    simp only [legalRun, Bool.and_eq_true] at h
+    have hs := rinv_step hi op h.1
+    have := ih (rstep r op) hs.1 h.2
+    simp only [rrun, List.foldl_cons] at this ⊢
+    refine ⟨?_, this.2⟩
+    rw [this.1, hs.2]
+    cases hb : op.toBase with
+    | none => simp [baseOpsR, hb, baseStepOpt]
+    | some o => simp [baseOpsR, hb, baseStepOpt, run]
+
+/-- **Registry id reuse does not show.**  After any program in which spans close and their registry slots are handed
+    to later spans — any slot no live span occupies, in any order, across threads — the creation-numbered state is
+    the one of the slot-free model on the same program without the closings (so every theorem above applies), and
+    the slot of every live span holds exactly that span's map: nothing of the slot's previous tenant. -/
+theorem slots_agree (ops : List ROp) (h : legalRun rinit ops = true) :
+    (rrun rinit ops).base = run init (baseOpsR ops) ∧ RInv (rrun rinit ops) := by
+  have := slots_agree_from rinit rinv_init ops h
+  exact this
+
+/-- **Emission through a reused slot.**  The key of a metric emitted on thread `t`, its current span's labels being
+    read from the registry slot the span lives in (possibly the slot of spans that closed earlier), is the key
+    `emit` of the slot-free model gives — hence obeys `emit_lookup` / `emit_label_set` / `emit_exact`.  (The
+    current span is alive: its stack entry holds a reference.) -/
+theorem slot_emit_eq (ops : List ROp) (h : legalRun rinit ops = true) (f : Filter) (t : Nat) (name : Str)
+    (labels : List (Str × Str))
+    (hc : ∀ c, current (rrun rinit ops).base t = some c → liveR (rrun rinit ops) c = true) :
+    rEmit (rrun rinit ops) f t name labels = emit (run init (baseOpsR ops)) f t name labels := by
+  have ha := slots_agree ops h
+  have hl : rLookup (rrun rinit ops) (current (rrun rinit ops).base t)
+      = parentLabels (rrun rinit ops).base (current (rrun rinit ops).base t) := by
+    apply rLookup_eq ha.2
+    cases hcur : current (rrun rinit ops).base t with
+    | none => trivial
+    | some c => exact hc c hcur
+  simp only [rEmit, hl, emit, enhanceKey, ← ha.1]
+  cases parentLabels (rrun rinit ops).base (current (rrun rinit ops).base t) with
+  | none => rfl
+  | some m => by_cases e : m.isEmpty <;> simp [e]
+
+
+/-- the legality premise is what carries this: were a slot handed out while a live span occupies it, that span would
+    show the newcomer's labels -/
+theorem illegal_slot_reuse_leaks :
+    rEmit (rrun rinit [.new 0 .root [(['a'], .str ['x'])] 0, .enter 0 0, .new 0 .root [(['b'], .str ['y'])] 0])
+      .includeAll 0 ['m'] [] = [(['b'], ['y'])] := by
+  decide
+
 /-! ## source facts: what ties the model's shape to the text of the crate -/
 
 /-- the pool is built with `Map::new` / `Map::clear` (`poolInit` / `poolReset`), `Labels::default()` pulls
@@ -419,6 +730,14 @@ theorem src_filters :
     ∧ Generated.tracing_includeall_include = "{true}" := by
   decide
 
+/-- an `Allowlist` holds nothing but the set of names (no bounds, no precomputed lengths that a decision could
+    consult besides the set), and the layer constructors hand the names / the include-all filter on untouched -/
+theorem src_filter_construction :
+    Generated.tracing_allowlist_fields = ["label_names:HashSet<String>"]
+    ∧ Generated.tracing_only_allow = "{Self{label_filter:label_filter::Allowlist::new(allowed)}}"
+    ∧ Generated.tracing_layer_all = "{Self{label_filter:label_filter::IncludeAll}}" := by
+  decide
+
 /-! ## non-vacuity: concrete programs -/
 
 section examples
@@ -468,6 +787,26 @@ example : emit init .includeAll 0 M [(A, ['1']), (A, ['2'])] = [(A, ['1']), (A, 
 example : emit (run init prog) .includeAll 0 M [(A, ['1']), (A, ['2'])]
     = [(A, ['2']), (B, ['t', 'r', 'u', 'e']), (C, ['o', 'c'])] := by decide
 
+/-- names outside ASCII: `région` is 6 characters and 7 bytes, `地域` 2 and 6, the decomposed `région` 7 and 8 -/
+private def REGION : Str := ['r', 'é', 'g', 'i', 'o', 'n']
+private def REGION_NFD : Str := ['r', 'e', '\u0301', 'g', 'i', 'o', 'n']
+private def CHIIKI : Str := ['地', '域']
+
+example : charLen REGION = 6 ∧ byteLen REGION = 7 ∧ charLen CHIIKI = 2 ∧ byteLen CHIIKI = 6
+    ∧ charLen REGION_NFD = 7 ∧ byteLen REGION_NFD = 8 := by decide
+
+example : (utf8 REGION).data.toList = [0x72, 0xC3, 0xA9, 0x67, 0x69, 0x6F, 0x6E]
+    ∧ (utf8 CHIIKI).data.toList = [0xE5, 0x9C, 0xB0, 0xE5, 0x9F, 0x9F] := by decide
+
+/-- the single CJK name is admitted; the longest, multi-byte name of a list is admitted; its undecorated and its
+    decomposed spelling are different names -/
+example : emit (run init [.newSpan 0 .contextual [(CHIIKI, .str ['k']), (A, .str ['v'])], .enter 0 0])
+    (.allowlist [CHIIKI]) 0 M [] = [(CHIIKI, ['k'])] := by decide
+example : emit (run init [.newSpan 0 .contextual [(REGION, .str ['e', 'u']), (REGION_NFD, .str ['x']), (B, .u64 1)], .enter 0 0])
+    (.allowlist [REGION, B]) 0 M [] = [(REGION, ['e', 'u']), (B, ['1'])] := by decide
+example : (Filter.allowlist [REGION, B]).shouldInclude M REGION_NFD [] = false
+    ∧ (Filter.allowlist [REGION, B]).shouldInclude M ['r', 'e', 'g', 'i', 'o', 'n'] [] = false := by decide
+
 /-- wide-stack leaf closes, its map goes back to the pool; the next span (no fields, root) is empty and a metric
     inside it keeps its key; the pool holds the two maps handed back (the record temporary and the leaf's) -/
 private def pprog : List POp :=
@@ -484,6 +823,20 @@ example : (prun pinit pprog).base.spans[2]? = some [] := by decide
 example : emit (prun pinit pprog).base .includeAll 0 M [(A, ['m'])] = [(A, ['m'])] := by decide
 example : (prun pinit pprog).closed = [1] ∧ (prun pinit pprog).pool = [[]] := by decide
 example : pinned (prun pinit pprog) 4 0 = false ∧ pinned (prun pinit (pprog.take 4)) 4 0 = true := by decide
+
+/-- span 0 closes, span 1 takes its slot 0 (a reuse), span 2 a fresh slot; a record on the reused slot -/
+private def rprog : List ROp :=
+  [ .new 0 .contextual [(A, .str ['o', 'l', 'd']), (B, .str ['o', 'b'])] 0,
+    .enter 0 0, .exit 0 0, .close 0,
+    .new 0 .contextual [(C, .u64 7)] 0,
+    .enter 0 1,
+    .new 0 .contextual [(A, .str ['n', 'e', 'w'])] 1,
+    .record 0 1 [(C, .i64 (-1))],
+    .enter 0 2 ]
+
+example : legalRun rinit rprog = true := by decide
+example : rEmit (rrun rinit rprog) .includeAll 0 M [] = [(A, ['n', 'e', 'w']), (C, ['7'])] := by decide
+example : (rrun rinit rprog).ext 0 = some [(C, ['-', '1'])] ∧ (rrun rinit rprog).slotOf 1 = 0 := by decide
 
 end examples
 
